@@ -509,6 +509,35 @@ func transformFile(fset *token.FileSet, path string, src []byte, kind string, in
 			n++
 			return true
 		})
+	case "reverse-funcs":
+		// the order of the function declarations of a file carries no meaning
+		var idx []int
+		for i, d := range f.Decls {
+			if _, ok := d.(*ast.FuncDecl); ok {
+				idx = append(idx, i)
+			}
+		}
+		for a, b := 0, len(idx)-1; a < b; a, b = a+1, b-1 {
+			f.Decls[idx[a]], f.Decls[idx[b]] = f.Decls[idx[b]], f.Decls[idx[a]]
+			n++
+		}
+		// comments are positioned by offset: drop them rather than have them land inside other code
+		f.Comments = nil
+	case "reorder-fields":
+		// the order of struct fields carries no meaning (keyed literals only; a file with unkeyed
+		// ones does not load and is skipped)
+		ast.Inspect(f, func(nd ast.Node) bool {
+			st, ok := nd.(*ast.StructType)
+			if !ok || st.Fields == nil || len(st.Fields.List) < 2 {
+				return true
+			}
+			l := st.Fields.List
+			for i, j := 0, len(l)-1; i < j; i, j = i+1, j-1 {
+				l[i], l[j] = l[j], l[i]
+			}
+			n++
+			return true
+		})
 	case "add-log":
 		// a trace line at the top of every function, if, for and case body (people add and remove
 		// log lines all the time). Functions that declare their own `log` are left alone.
@@ -662,7 +691,7 @@ func runBenignFuzz(repo, verif string, only string) int {
 			}
 		}
 	}
-	kinds := []string{"swap-eq", "flip-rel", "negate-if", "for-cond", "noop", "rename", "switch-to-if", "if-to-switch", "demorgan", "swap-add", "unnest-else", "nest-else", "reverse-select", "reverse-typeswitch", "add-log"}
+	kinds := []string{"swap-eq", "flip-rel", "negate-if", "for-cond", "noop", "rename", "switch-to-if", "if-to-switch", "demorgan", "swap-add", "unnest-else", "nest-else", "reverse-select", "reverse-typeswitch", "add-log", "reorder-fields", "reverse-funcs"}
 	var variants []benignVariant
 	tmp, err := os.MkdirTemp("", "benignfuzz")
 	if err != nil {
